@@ -462,6 +462,86 @@ def _autonames(nn, jnp, jax, fails, tier):
         fails.append(dict(inputs=dict(program='auto-named Dense inside and after the lifted construct', transform=kind), observed='outputs differ from the Python control flow', violated='outputs-equal'))
     except Exception as e:  # noqa
       fails.append(dict(inputs=dict(program='auto-named Dense inside and after the lifted construct', transform=kind), observed=f'raised {e!r}'[:300], violated='init-tree-equal'))
+  # nn.cond follows Python truthiness of the predicate: negative and fractional numbers are true, zeros (also -0.0) are false
+  n0 = len(fails)
+  class Gate(nn.Module):
+    lifted: bool
+
+    def setup(self):
+      self.a = nn.Dense(3)
+      self.count = self.variable('state', 'count', lambda: jnp.zeros(()))
+
+    def __call__(self, x, pred):
+      def t(m, x):
+        m.count.value = m.count.value + 1.0
+        return m.a(x)
+
+      def f(m, x):
+        m.count.value = m.count.value + 10.0
+        return m.a(x) * -1.0
+      if self.is_initializing():
+        return self.a(x)
+      if self.lifted:
+        return nn.cond(pred, t, f, self, x)
+      return t(self, x) if bool(pred) else f(self, x)
+  gv = Gate(False).init(jax.random.key(0), x, True)
+  for pred in (True, False, 1, 0, 2, -1, 0.5, -0.25, -0.0, np.float32(-3.5), np.int32(-2), jnp.asarray(0.75), jnp.asarray(-1), np.float64(1e-9)):
+    cases += 1
+    try:
+      want = Gate(False).apply(gv, x, pred, mutable=['state'])
+      got = Gate(True).apply(gv, x, pred, mutable=['state'])
+      got_j = jax.jit(lambda p: Gate(True).apply(gv, x, p, mutable=['state']))(jnp.asarray(pred))
+      for tag, g in (('eager predicate', got), ('predicate traced by an outer jit', got_j)):
+        if not _close(jax.tree_util.tree_map(np.asarray, want), jax.tree_util.tree_map(np.asarray, g)):
+          fails.append(dict(inputs=dict(program='nn.cond with a numeric predicate', transform='cond', predicate=repr(pred), mode=tag),
+                            observed=f"state count {float(g[1]['state']['count'])} vs python `if pred` {float(want[1]['state']['count'])}: the other branch ran", violated='outputs-equal'))
+          break
+    except Exception as e:  # noqa
+      fails.append(dict(inputs=dict(program='nn.cond with a numeric predicate', transform='cond', predicate=repr(pred)), observed=f'raised {e!r}'[:300], violated='outputs-equal'))
+    if len(fails) > n0:
+      break
+  # nn.jit over a class with SEVERAL transformed methods: each method keeps its own trace
+  class AutoEnc(nn.Module):
+    def setup(self):
+      self.enc = nn.Dense(3)
+      self.dec = nn.Dense(3, use_bias=False)
+      self.count = self.variable('state', 'count', lambda: jnp.zeros(()))
+
+    def encode(self, x):
+      if not self.is_initializing():
+        self.count.value = self.count.value + 1.0
+      return jnp.tanh(self.enc(x))
+
+    def decode(self, z):
+      if not self.is_initializing():
+        self.count.value = self.count.value + 10.0
+      return self.dec(z) * 2.0
+
+    def __call__(self, x):
+      return self.decode(self.encode(x))
+  for methods in (['encode', 'decode'], ['__call__', 'encode', 'decode'], {'encode': {}, 'decode': {}}, ['decode']):
+    cases += 1
+    inp = dict(program='autoencoder with encode / decode / __call__', transform='jit', methods=repr(methods))
+    try:
+      J = nn.jit(AutoEnc, methods=methods)
+      pv0 = AutoEnc().init(jax.random.key(0), x)
+      jv0 = J().init(jax.random.key(0), x)
+      if jax.tree_util.tree_map(np.shape, dict(pv0)) != jax.tree_util.tree_map(np.shape, dict(jv0)):
+        fails.append(dict(inputs=inp, observed=f'init tree {jax.tree_util.tree_map(np.shape, dict(jv0))} differs from the plain module {jax.tree_util.tree_map(np.shape, dict(pv0))}', violated='init-tree-equal'))
+        continue
+      for seq in (('encode', 'decode'), ('decode', 'encode', 'encode'), ('__call__', 'decode')):
+        for mname in seq:
+          want = AutoEnc().apply(pv0, x, method=mname, mutable=['state'])
+          got = J().apply(pv0, x, method=mname, mutable=['state'])
+          if not _close(jax.tree_util.tree_map(np.asarray, want), jax.tree_util.tree_map(np.asarray, got)):
+            fails.append(dict(inputs=dict(inp, sequence=seq, at=mname), observed='output / updated state differ from the plain module (another method\'s trace was used?)', violated='outputs-equal'))
+            break
+        if len(fails) > n0:
+          break
+    except Exception as e:  # noqa
+      fails.append(dict(inputs=inp, observed=f'raised {e!r}'[:300], violated='outputs-equal'))
+    if len(fails) > n0:
+      break
   # sub-module ATTRIBUTES declared out of alphabetical order (encoder before decoder) under class transforms
   class Enc(nn.Module):
     @nn.compact
